@@ -20,6 +20,7 @@ R1.13 the parameter list a signature is rendered from is sorted required-first a
 R1.12 spec text placed after a `#` has every line boundary removed (otherwise the rest of the description is parsed as code)  [= R15.1, COMMENT holes]
 R1.11 RenderContext's completion of "incomplete" internal module paths never applies to a module of the core package
 R1.10 the tag client modules client.py imports are the ones the endpoints emitter writes (grouping agreement, rules of C07)
+R1.22 a method of the render context that registers imports is never skipped on account of a record that outlives the per-file reset of the import collector
 R1.16 the overload signatures (parameters in document order) carry no default in front of the keyword-only `*`
 R1.15 enum members of one class get pairwise distinct names (duplicate member = TypeError at import)            [= R20.2, enum members]
 R1.17 a schema object outside the registry (property stub) that is given a class name is given its module stem in the same place
@@ -83,6 +84,7 @@ def run(repo: Repo, rep: Report, tier: str) -> None:
     rule_named_stub_has_module(repo, rep, "R1.17")
     rule_cyclic_model_imports(repo, rep, "R1.19")
     rule_fields_do_not_shadow_imports(repo, rep, "R1.21")
+    rule_import_registration_not_memoised(repo, rep, "R1.22")
     from rules.c12 import rule_import_time_imports
 
     rule_import_time_imports(repo, rep, "R1.18")
@@ -1204,3 +1206,105 @@ def rule_fields_do_not_shadow_imports(repo: Repo, rep, rule: str = "R1.21") -> N
             rep.violation(rule, sub, f"{gen.fq}|field-shadows-import|{nm}",
                           f"a property called `{nm}` becomes the field `{nm}`, and the model module imports `{nm}` ({where}) for use in the same class body: the field's "
                           f"default rebinds the name, a later annotation / `{nm}(...)` call in the body sees None, and importing the models package raises TypeError", where)
+
+
+# ------------------------------------------------------------------------------------------------ R1.22 import registration is per file
+_R122_EXAMPLE = '''
+class Ctx:
+    def __init__(self):
+        self.import_collector = Collector()
+        self._seen = set()
+
+    def set_current_file(self, p):
+        self.import_collector.reset()
+
+    def add_typing_imports_for_type(self, t):
+        if t in self._seen:
+            return
+        self._seen.add(t)
+        self.import_collector.add_import("typing", "Any")
+'''
+
+
+def _import_memo_hazards(cls_node: ast.ClassDef):
+    """[(method, table, guard node)]: methods that register imports but return early when their argument is found in an instance-level
+    container which the method that resets the import collector does not clear; and the number of registering methods looked at."""
+    methods = {m.name: m for m in cls_node.body if isinstance(m, (ast.FunctionDef, ast.AsyncFunctionDef))}
+    init = methods.get("__init__")
+    tables: Set[str] = set()
+    if init is not None:
+        for st in ast.walk(init):
+            if isinstance(st, (ast.Assign, ast.AnnAssign)):
+                tg = st.targets if isinstance(st, ast.Assign) else [st.target]
+                v = st.value
+                if v is not None and (isinstance(v, (ast.Set, ast.Dict, ast.List)) or (isinstance(v, ast.Call) and isinstance(v.func, ast.Name) and v.func.id in ("set", "dict", "list", "defaultdict", "OrderedDict"))):
+                    for t in tg:
+                        if isinstance(t, ast.Attribute) and isinstance(t.value, ast.Name) and t.value.id == "self":
+                            tables.add(t.attr)
+
+    def registers_directly(m) -> bool:
+        for c in ast.walk(m):
+            if isinstance(c, ast.Call) and isinstance(c.func, ast.Attribute):
+                if isinstance(c.func.value, ast.Attribute) and c.func.value.attr == "import_collector" and c.func.attr.startswith("add"):
+                    return True
+        return False
+
+    reg = {n for n, m in methods.items() if registers_directly(m)}
+    changed = True
+    while changed:
+        changed = False
+        for n, m in methods.items():
+            if n in reg:
+                continue
+            if any(isinstance(c, ast.Call) and isinstance(c.func, ast.Attribute) and isinstance(c.func.value, ast.Name) and c.func.value.id == "self" and c.func.attr in reg for c in ast.walk(m)):
+                reg.add(n)
+                changed = True
+    resetters = [m for m in methods.values() if any(isinstance(c, ast.Call) and isinstance(c.func, ast.Attribute) and c.func.attr == "reset" and isinstance(c.func.value, ast.Attribute)
+                                                      and c.func.value.attr == "import_collector" for c in ast.walk(m))]
+    cleared: Set[str] = set()
+    for m in resetters:
+        for x in ast.walk(m):
+            if isinstance(x, ast.Call) and isinstance(x.func, ast.Attribute) and x.func.attr == "clear" and isinstance(x.func.value, ast.Attribute) and isinstance(x.func.value.value, ast.Name) \
+                    and x.func.value.value.id == "self":
+                cleared.add(x.func.value.attr)
+            if isinstance(x, (ast.Assign, ast.AnnAssign)):
+                for t in (x.targets if isinstance(x, ast.Assign) else [x.target]):
+                    if isinstance(t, ast.Attribute) and isinstance(t.value, ast.Name) and t.value.id == "self":
+                        cleared.add(t.attr)
+    out = []
+    for n in sorted(reg):
+        m = methods[n]
+        for st in ast.walk(m):
+            if isinstance(st, ast.If) and any(isinstance(b, ast.Return) for b in st.body):
+                for x in ast.walk(st.test):
+                    if isinstance(x, ast.Attribute) and isinstance(x.value, ast.Name) and x.value.id == "self" and x.attr in tables and x.attr not in cleared:
+                        # the table must be filled by this class itself from the tested argument (a memo), not configuration
+                        fills = any(isinstance(c, ast.Call) and isinstance(c.func, ast.Attribute) and c.func.attr in ("add", "append", "setdefault", "update") and isinstance(c.func.value, ast.Attribute)
+                                    and c.func.value.attr == x.attr for c in ast.walk(m)) or any(
+                            isinstance(a, ast.Assign) and any(isinstance(t, ast.Subscript) and isinstance(t.value, ast.Attribute) and t.value.attr == x.attr for t in a.targets) for a in ast.walk(m))
+                        if fills:
+                            out.append((n, x.attr, st))
+    return out, len(reg)
+
+
+def rule_import_registration_not_memoised(repo: Repo, rep, rule: str = "R1.22") -> None:
+    """One RenderContext serves the whole run; its import collector is emptied for every file (`set_current_file` -> `import_collector.reset()`).
+    A method that registers imports and skips its work for an argument it has 'already seen' - a record kept on the context and not cleared with
+    the collector - registers nothing in every later file: the first module gets `from typing import Any`, `client.py` does not (NameError)."""
+    hz, n = _import_memo_hazards(ast.parse(_R122_EXAMPLE).body[0])
+    rep.require(len(hz) == 1 and n >= 1, f"{rule}: the built-in positive example is no longer recognised - the rule is broken")
+    mod = repo.module("context.render_context")
+    cls = mod.classes.get("RenderContext")
+    if cls is None:
+        raise AnalysisError(f"{rule}: anchor vanished: RenderContext")
+    hz, n = _import_memo_hazards(cls.node)
+    rep.count(f"{rule}:registering_methods", n)
+    rep.require(n >= 4, f"{rule}: only {n} import-registering methods found in RenderContext (floor 4)")
+    sub = f"{mod.relpath}:RenderContext import registration vs. records that outlive a file"
+    if hz:
+        for name, table, st in hz:
+            rep.violation(rule, sub + f" ({name})", f"{mod.name}:RenderContext.{name}|import-registration-memoised|{table}",
+                          f"`{name}` returns early when its argument is in `self.{table}`, a record that is filled here and survives `set_current_file` (which empties the import "
+                          "collector): in every file after the first the imports this call should register are missing - e.g. `Any` in client.py", f"{mod.relpath}:{st.lineno}")
+    else:
+        rep.ok(rule, sub, f"{n} registering methods: none is skipped on account of a record that outlives the per-file reset", f"{mod.relpath}:1")
